@@ -14,12 +14,14 @@ RULE = (
     "every flyer; no callback is left subscribed on any signal; per-call and in-plan subscriptions receive nothing from the next "
     "call; non-trivial = behaviour digest differs from the reference run"
 )
-ASSUMPTIONS = _x1.X1_ASSUMPTIONS + ["stop()/unstage()/clear_sub() of the fake devices never fail"]
+ASSUMPTIONS = _x1.X1_ASSUMPTIONS + [
+    "stop() and clear_sub() of the fake devices never fail; an unstage() that the fault plan makes raise counts as an unstage attempt of that device",
+]
 
 F = ("raise", "fail")
 _q = ["scan2", "cleanup", "bare", "fly1", "monitor1", "subs", "twomotors", "flyonly", "monitor2"]
 SPECS = {
-    "quick": [spec(k, bound=1, faults=F) for k in _q] + [spec(k, bound=1, a=1) for k in ("scan2", "bare", "twomotors")],
+    "quick": [spec(k, bound=1, faults=F) for k in _q] + [spec(k, bound=1, a=1) for k in ("scan2", "bare", "twomotors")] + [spec("bare2", bound=1, faults=F)],
     "thorough": [spec(k, bound=1, faults=F, a=a) for k in _q + ["count2", "grid22s", "relscan2", "nested"] for a in (0, 1)]
     + [spec(k, bound=2, faults=F) for k in ("bare", "flyonly")]
     + [spec("twomotors", [("pause",), ("abort",), ("suspend", "none")], bound=2)],
